@@ -8,13 +8,17 @@ use common::*;
 
 const KBUF: usize = 280;
 
+/// `start` is concrete per instance (a symbolic start offset turns every byte access into a
+/// symbolic-index array operation: 242 bytes took 820 s instead of seconds)
 fn keystream(len: usize) {
+    keystream_at(len, 9)
+}
+fn keystream_at(len: usize, start: usize) {
     model::reset(0);
     unsafe { model::CONSISTENT = false; }
     let mut phy: [u8; KBUF] = kani::any();
     let orig = phy;
-    let start: usize = kani::any();
-    kani::assume(start >= 9 && start <= 24); // MHDR + FHDR(7..22) + FPort
+    // MHDR + FHDR(7..22) + FPort: 9 (no FOpts) or 24 (15 bytes of FOpts)
     let end = start + len;
     let fcnt: u32 = kani::any();
     let key = any_key();
@@ -49,7 +53,7 @@ macro_rules! ks { ($name:ident, $len:expr, $unw:expr) => {
     fn $name() { keystream($len) }
 }; }
 //@h id=keystream_len_0 props=C01,C02 tier=quick build=enc cost=5 timeout=600
-//@bounds payload length 0; start offset 9..=24; arbitrary frame bytes, counter, key
+//@bounds payload length 0 at offset 9 (no FOpts); arbitrary frame bytes, counter, key
 //@encodes securityhelpers::encrypt_frm_data_payload, generate_helper_block
 ks!(keystream_len_0, 0, 4);
 //@h id=keystream_len_1 props=C01,C02 tier=quick build=enc cost=5 timeout=600
@@ -73,6 +77,11 @@ ks!(keystream_len_64, 64, 66);
 //@h id=keystream_len_242 props=C01,C02 tier=quick build=enc cost=30 timeout=900
 //@bounds payload length 242 (the LoRaWAN maximum): 16 keystream blocks
 ks!(keystream_len_242, 242, 244);
+//@h id=keystream_len_18_fopts15 props=C01,C02 tier=quick build=enc cost=10 timeout=600
+//@bounds payload length 18 starting at offset 24 (15 bytes of FOpts)
+#[kani::proof]
+#[kani::unwind(22)]
+fn keystream_len_18_fopts15() { keystream_at(18, 24) }
 //@h id=keystream_len_31 props=C01,C02 tier=thorough build=enc cost=10 timeout=600
 //@bounds payload length 31
 ks!(keystream_len_31, 31, 34);
